@@ -516,6 +516,9 @@ func runC02(c *c02Case) (v *vcommon.Violation, nontrivial, inconclusive bool) {
 			}
 			if only != kk.cur || (only == "" && op.Op == "del" && ki == op.K) {
 				kk.cur, kk.held = only, nil
+				// the recorded finding is about copies the deleting owner does not list (or that are in flight); a
+				// copy that is still there, right after the acknowledged Delete, on a member the owner DOES list is
+				// something else
 				kk.delRearranging = only == "" && stopsDone > 0 && rearranging(ki)
 			}
 			if op.Op != "get" && ki == op.K || op.Op == "stop" {
